@@ -428,3 +428,14 @@ Proof. intros [H|H]; unfold server_check; rewrite H; reflexivity. Qed.
 Theorem fetch_fault_not_clear w st s fr u :
   w_fetch w u = FetchErr -> ~ PointClear (w_fetch w) (w_now w) st s fr u.
 Proof. intros H [b [[E _] _]]. rewrite H in E. discriminate. Qed.
+
+(* totality: a check of any chain in any world yields one result per certificate, or the invalid-chain error *)
+Theorem revocation_total sigfrom selfsig purpose w st chain :
+  match validate_ctx sigfrom selfsig purpose w st chain with
+  | None => validate_chain sigfrom selfsig purpose chain = false
+  | Some rs => length rs = length chain
+  end.
+Proof.
+  pose proof (validate_ctx_spec sigfrom selfsig purpose w st chain) as H.
+  destruct (validate_ctx sigfrom selfsig purpose w st chain); [tauto|exact H].
+Qed.
